@@ -49,12 +49,20 @@ def _mat(c):
     o = {"exc": "", "es": {}, "eca": {}}
     try:
         es = ES(data, timestamps=ts, taumax=tm, lag=c["lag"] / den)
-        for opt in ("directed", "symmetric", "antisym", "mean", "max", "min"):
+        # all requests go to ONE object, in an order that depends on the case (each result is compared
+        # with its definition, so a request that spoils a later one is seen)
+        import zlib
+        r = zlib.crc32(c["case"].encode())
+        opts = ["directed", "symmetric", "antisym", "mean", "max", "min"]
+        opts = opts[r % 6:] + opts[:r % 6]
+        wts = ["advanced", "retarded", "symmetric"]
+        wts = wts[r % 3:] + wts[:r % 3]
+        for opt in opts:
             o["es"][opt] = enc.arr(es.event_series_analysis(method="ES", symmetrization=opt))
         if c["tm"] != enc.INF:
-            for wt in ("advanced", "retarded", "symmetric"):
+            for wt in wts:
                 o["eca"][wt] = {}
-                for opt in ("directed", "mean", "max", "min"):
+                for opt in [x for x in opts if x in ("directed", "mean", "max", "min")]:
                     o["eca"][wt][opt] = enc.arr(es.event_series_analysis(
                         method="ECA", symmetrization=opt, window_type=wt))
     except Exception as ex:
